@@ -13,7 +13,7 @@ func init() { props["C02"] = checkC02 }
 // version layer answered by the implementation.
 func checkC02(ctx *Ctx) {
 	res := ctx.Res
-	res.Rule = "per ecosystem (maven has no comparator syntax): bounds = pool members inside the property's scope clause; every supported comparator spelling x every bound x every pool probe: the range must parse and Contains must equal sat(op, Compare(probe, bound)); random AND lists (2-4 constraints, 5% of them 12-40) for every documented AND separator (30% of the lists mix them) must equal the conjunction, OR groups (npm, composer, conan; 2-3 groups, 6% of them 8-20) the disjunction; R-layer correspondence (accept, String, Contains) of modelled ecosystems with NewVersion/Compare answered by the implementation. non-trivial = distinct (range text, probe) pairs whose probe differs textually from every bound"
+	res.Rule = "per ecosystem (maven has no comparator syntax): bounds = pool members inside the property's scope clause; every supported comparator spelling x every bound x every pool probe: the range must parse and Contains must equal sat(op, Compare(probe, bound)); random AND lists (2-4 constraints, 5% of them 12-40) for every documented AND separator (composer: 30% of the lists mix space and comma, as Composer documents) must equal the conjunction, OR groups (npm, composer, conan; 2-3 groups, 6% of them 8-20) the disjunction; R-layer correspondence (accept, String, Contains) of modelled ecosystems with NewVersion/Compare answered by the implementation. non-trivial = distinct (range text, probe) pairs whose probe differs textually from every bound"
 	nPool, nBounds, nAnd := 70, 24, 160
 	if !ctx.Quick {
 		nPool, nBounds, nAnd = 220, 80, 3000
@@ -117,8 +117,8 @@ func checkC02(ctx *Ctx) {
 				bts = append(bts, bt)
 			}
 			joined := strings.Join(texts, sep)
-			if len(syn.And) > 1 && r.Chance(30) {
-				// every documented AND separator may be used inside one list
+			if len(syn.And) > 1 && r.Chance(30) && e.Name == "composer" {
+				// Composer documents that space and comma may both be used inside one list
 				joined = texts[0]
 				for _, t := range texts[1:] {
 					joined += syn.And[r.Intn(len(syn.And))] + t
